@@ -1,7 +1,7 @@
 """C06 - quantity arithmetic agrees with arithmetic on base-dimension values.
 
 1. TLC enumerates (QuantityAlgGen, Source="enum") every operand pair over the exact-ratio units
-   {none, m, cm, km, s, ms, g, kg, %, m/s, cm2} x values {-2, 0, 1, 3} x {+ - * /} x both operand orders x a plain
+   {none, m, cm, km, s, ms, g, kg, %, m/s, cm2, s-1, rad} x values {-2, 0, 1, 3} x {+ - * /} x both operand orders x a plain
    number on either side, negation, and power under 22 exponent spellings (int, pair, float, Fraction, np.power,
    np.sqrt, np.cbrt); it computes the ideal's expectation (exponent map, dimension, base-dimension value as an
    exact rational and as a term, refusal) and checks the algebraic lemmas on the rational model.
@@ -140,7 +140,9 @@ def run_case(case):
                              tags=tags, expected="a Quantity", observed=f"{type(e).__name__}: {e} ({res!r})"))
     emap = A.ex_to_map(r0["ex"])
     if omap != emap:
-        return ("fail", dict(clause="result units follow the exponent rule of the operation", failure="wrong_units", tags=tags,
+        as_tr = omap == A.ex_to_map(r0["machex"])       # the units the transcribed exponent scaling of the code predicts
+        return ("fail", dict(clause="result units follow the exponent rule of the operation",
+                             failure="wrong_units" + (":as_transcribed" if as_tr else ""), tags=tags,
                              expected=A.fmt_map(emap), observed=A.fmt_map(omap)))
     edims = [PyFrac(d[0], d[1]) for d in r0["dim"]]
     if odims[:len(edims)] != edims or any(d != 0 for d in odims[len(edims):]):
@@ -256,7 +258,8 @@ def table_scenarios(rnd, n):
         bex = []
         if op in ("add", "sub"):
             r = rnd.random()
-            bex = same_dim_variant(aex) if r < 0.75 else (exmap() if r < 0.9 else [])
+            bex = same_dim_variant(aex) if r < 0.7 else (exmap() if r < 0.85 else
+                                                         ([{"u": x["u"], "e": [-x["e"][0], x["e"][1]]} for x in same_dim_variant(aex)] if r < 0.93 else []))
         elif op in ("mul", "div"):
             r = rnd.random()
             bex = exmap() if r < 0.45 else (same_dim_variant(aex) if r < 0.85 else
@@ -355,7 +358,7 @@ def run(replay=None):
         "evaluations": len(cases), "distinct_nontrivial": len(nontriv),
         "scenarios_enumerated_by_tlc": len(recs), "scenarios_over_table_units": len(r2.records),
         "table_units_used": len(json.load(open(fin))["units"]),
-        "rule": "TLC enumerates all operand pairs over 11 exact-ratio unit expressions x 4 values x (+,-,*,/) x both orders x plain number "
+        "rule": "TLC enumerates all operand pairs over 13 exact-ratio unit expressions x 4 values x (+,-,*,/) x both orders x plain number "
                 "on either side, negation and 22 exponent spellings (exhaustive), plus a seeded sample of scenarios over all linear "
                 "table units with one-letter prefixes annotated by TLC; each replayed as scalars (unit text and exponent dict, Python and "
                 "NumPy plain numbers) and as arrays; non-trivial = distinct (shape, values) whose operands mix units, involve a plain "
